@@ -466,9 +466,6 @@ def run(chk):
         "schema `keyed` sites: the written files / merged maps are only read by key afterwards",
         "ModuleCollector and the autouse-fixture order are library/test-runner paths not reached by build/check/emit/fmt",
     ]
-    # TEMPORARY (lead: drop after merging build/kf-C12.json into known_findings.json)
-    if not chk.findings and os.path.exists(os.path.join(vlib.BUILD, "kf-C12.json")):
-        chk.findings = json.load(open(os.path.join(vlib.BUILD, "kf-C12.json")))
     res = chk.proof_stage("C12", allow_axioms=())
     binary = vlib.build_harness("debug")
 
